@@ -22,7 +22,7 @@ checks, na = [], []
 for p in props:
     pid = p["id"]
     mine = [h for h in hs if pid in h["props"]]
-    quick = [h for h in mine if h.get("tier", "quick") == "quick" and not h.get("expect_fail")]
+    quick = [h for h in mine if h.get("tier", "quick") == "quick" and not h.get("expect_fail") and ("quick_for" not in h or pid in h["quick_for"])]
     if pid in NOT_APPLICABLE or len(quick) < 2 or pid not in TEXT:
         na.append({"property_id": pid, "reason": NOT_APPLICABLE.get(
             pid, "no solver-decidable bounded harness over the real code is registered for this property yet")})
